@@ -34,7 +34,7 @@ def cases(tier, seed):
 def make(prog, seed, **kw):
     from plinio.methods import SuperNet
     model, x = G2.build(prog, seed, positive_input=False)
-    nas = SuperNet(model, input_shape=G2.input_shape(prog), **kw)
+    nas = SuperNet(model, **G2.shape_args(prog, x), **kw)
     return nas, x, model
 
 
